@@ -57,7 +57,7 @@ SPEC = {
                   "connections of the worker, of every kind, exceed the budget).  Whole-worker runs offer the requests over HTTP/1.1 with "
                   "and without reuse, prior-knowledge HTTP/2, Upgrade: h2c (with and without further streams), WebSocket handshakes and "
                   "mixes of them sharing one WorkerContext.",
-    "level_note": "Trusted: Lean kernel; the models HC/Lib/H11Buf, HC/Proto/H2Lim, HC/Worker/Recycle and the shared HC/Proto/H11 + H11M; "
+    "level_note": "Report rule of the real-clock whole-worker scenarios (worker.judge_with_reruns, as in C14 / C15): a scenario about which a monitor or the model comparison says something is run again alone (at most twice) before anything is reported, only what it says again is reported, the rest is counted (not_reproduced_on_rerun) and sampled in the evidence.  Trusted: Lean kernel; the models HC/Lib/H11Buf, HC/Proto/H2Lim, HC/Worker/Recycle and the shared HC/Proto/H11 + H11M; "
                   "enforcement inside h11 (byte parser; the incomplete-buffer comparison), hpack (header-list accounting) and h2 (stream "
                   "count, state machine CLOSED after close_connection) is *library behaviour*: modelled from their source, comparators "
                   "extracted from the installed packages, and sampled on every run at L-1 / L / L+1 with a client that ignores the "
@@ -792,7 +792,7 @@ def gen_recycle(ctx: Ctx) -> List[dict]:
     return out
 
 
-def judge_recycle(ctx: Ctx, sc: dict, obs: dict) -> Optional[dict]:
+def judge_recycle(ctx: Any, sc: dict, obs: dict) -> Optional[dict]:      # ctx: Ctx or worker.Findings
     base, jitter = sc["base"], sc["jitter"]
     scopes = [e for e in obs["events"] if e[2] == "scope"]
     S = len(scopes)
@@ -811,7 +811,6 @@ def judge_recycle(ctx: Ctx, sc: dict, obs: dict) -> Optional[dict]:
             ctx.violation("recycled_although_off", case, {"served": S, "offered": sc["offered"], "serve_end": end["t"], "trigger": trig}, sig)
         return {"j": 0, "S": S}
     lo, hi = base + 1, base + jitter + 1
-    ctx.distinct(["recycle", "worker", sc["worker"], sc["variant"], base, jitter, S - base - 1])
     if S < lo or S > hi:
         ctx.violation("exit_outside_window", case, {"requests_taken": S, "window": [lo, hi], "serve_end": end["t"], "trigger": trig}, sig)
         return None
@@ -835,23 +834,35 @@ def judge_recycle(ctx: Ctx, sc: dict, obs: dict) -> Optional[dict]:
 
 
 def check_recycle_worker(ctx: Ctx, scs: List[dict]) -> None:
-    obs = wk.run_many(scs, procs=12, timeout=60.0)
-    reqs = []
-    for sc, o in zip(scs, obs):
-        ctx.evaluations += 1
-        ctx.traces_validated += 1
-        r = judge_recycle(ctx, sc, o)
-        ctx.sample({k: sc[k] for k in ("family", "worker", "variant", "base", "jitter", "rand_seed")}, cap=5)
-        if r is not None and sc["base"] is not None:
-            reqs.append(({"cmd": "c18.recycle", "worker": sc["worker"], "base": sc["base"], "j": r["j"], "n": sc["offered"]}, sc, r))
-    out = ctx.model([q for q, _, _ in reqs])
-    if out is not None:
-        for (q, sc, r), m in zip(reqs, out):
-            ctx.disagreements_checked += 1
+    """Real-clock whole-worker scenarios: the report rule of worker.judge_with_reruns applies (as in C14 / C15).  A scenario about
+    which a monitor or the model comparison says something is run again ALONE (at most twice) before anything is reported; only
+    what it says again is reported, with the re-run's observation; the rest is counted under `not_reproduced_on_rerun` (sample in
+    the evidence).  A deterministic defect says the same thing on every run."""
+    obs = wk.run_many(scs, procs=wk.parallelism(12), timeout=60.0)
+    # the model's answer for every draw the scenario allows (the draw that happened is read off the observation, which differs
+    # from run to run): one batch, looked up by the judge
+    keys = sorted({(sc["worker"], sc["base"], j, sc["offered"]) for sc in scs if sc["base"] is not None for j in range(sc["jitter"] + 1)})
+    out = ctx.model([{"cmd": "c18.recycle", "worker": w, "base": b_, "j": j, "n": n} for w, b_, j, n in keys])
+    model = dict(zip(keys, out)) if out is not None else None
+
+    def judge(f: Any, i: int, sc: dict, o: dict) -> None:
+        r = judge_recycle(f, sc, o)
+        if r is not None and sc["base"] is not None and model is not None:
+            f.disagreements_checked += 1
+            m = model.get((sc["worker"], sc["base"], r["j"], sc["offered"])) or {}
             flags = (m.get("ok") or {}).get("flags")
             first = None if not flags or True not in flags else flags.index(True) + 1
             if first != r["S"]:
-                ctx.disagree("c18.recycle.worker", sc, {"first_terminate_at": first}, {"requests_taken": r["S"]})
+                f.disagree("c18.recycle.worker", sc, [("requests taken on before the exit starts", first, r["S"])], {"requests_taken": r["S"]})
+
+    final = wk.judge_with_reruns(ctx, scs, obs, judge, timeout=60.0)
+    for sc, o in zip(scs, final):
+        ctx.evaluations += 1
+        ctx.traces_validated += 1
+        S = sum(1 for e in o["events"] if e[2] == "scope")
+        if sc["base"] is not None and o["serve"]["outcome"] == "return":
+            ctx.distinct(["recycle", "worker", sc["worker"], sc["variant"], sc["base"], sc["jitter"], S - sc["base"] - 1])
+        ctx.sample({k: sc[k] for k in ("family", "worker", "variant", "base", "jitter", "rand_seed")}, cap=5)
 
 
 # ==============================================================================================================
